@@ -21,7 +21,7 @@ VARIABLES l,      \* next line to consume
 tvars == <<vars, l, drift, obs>>
 
 SetOf(sq) == {sq[i] : i \in 1..Len(sq)}
-ToChg(j) == Chg(j.id, j.kind, j.au, j.named, j.cite, SetOf(j.par), j.snap, j.cidOk, j.sigOk)
+ToChg(j) == [Chg(j.id, j.kind, j.au, j.named, j.cite, SetOf(j.par), j.snap, j.cidOk, j.sigOk) EXCEPT !.tw = j.tw]
 BatchOfLine(x) == [k \in 1..Len(x.batch) |-> ToChg(x.batch[k])]
 
 IsEvent(e) == l <= Len(Trace) /\ Trace[l].ev = e /\ l' = l + 1
@@ -35,6 +35,8 @@ Fresh(x) ==
            s == Chg(2, "snap", "W", "W", 0, {1}, 1, TRUE, TRUE)
        IN CASE x.kind = "signed"  -> attached' = {r} /\ stored' = {r} /\ heads' = {1} /\ memRoot' = 1
             [] x.kind = "derived" -> attached' = {d} /\ stored' = {d} /\ heads' = {1} /\ memRoot' = 1
+            [] x.kind = "grown"   -> LET g == Chg(2, "ch", "W", "W", 0, {1}, 1, TRUE, TRUE)
+                                     IN attached' = {r, g} /\ stored' = {r, g} /\ heads' = {2} /\ memRoot' = 1
             [] x.kind = "reduced" -> attached' = {s} /\ stored' = {r, s} /\ heads' = {2} /\ memRoot' = 2
 
 TraceInit ==
